@@ -107,12 +107,11 @@ def torsion_deg(p1, p2, p3, p4):
     """IUPAC torsion angle p1-p2-p3-p4 in degrees in (-180, 180]; None when undefined (collinear)."""
     b1, b2, b3 = p2 - p1, p3 - p2, p4 - p3
     n1, n2 = np.cross(b1, b2), np.cross(b2, b3)
-    u2 = _unit(b2)
-    if u2 is None or np.linalg.norm(n1) < 1e-9 or np.linalg.norm(n2) < 1e-9:
+    if np.linalg.norm(b2) < 1e-9 or np.linalg.norm(n1) < 1e-9 or np.linalg.norm(n2) < 1e-9:
         return None
-    m1 = np.cross(n1, u2)
-    x, y = float(np.dot(n1, n2)), float(np.dot(m1, n2))
-    return -math.degrees(math.atan2(y, x)) if True else None
+    x = float(np.dot(n1, n2))                               # (b1 x b2) . (b2 x b3)
+    y = float(np.linalg.norm(b2) * np.dot(b1, n2))          # |b2| b1 . (b2 x b3)
+    return math.degrees(math.atan2(y, x))
 
 
 # ----------------------------------------------------------------------------- residues
@@ -256,7 +255,7 @@ def measure(structure3d, K=None, model=None):
             v = ea[6] - eb[6]
             a1 = angle_deg(ri["normal"], v) if ri["normal"] is not None else None
             a2 = angle_deg(rj["normal"], v) if rj["normal"] is not None else None
-            kind = "phosphate" if (ea[5] and not (ea[3] or ea[2])) or (eb[5] and not (eb[3] or eb[2])) else (
+            kind = "phosphate" if (ea[1] in pho or eb[1] in pho) else (
                 "ribose" if (ea[1] in rib or eb[1] in rib) else "base")
             rec = {"i": ri["idx"], "j": rj["idx"], "a": ea[1], "b": eb[1], "dist": d, "kind": kind,
                    "dist_flag": flag_upper(d, hb_d), "dist_margin": abs(d - hb_d),
